@@ -339,10 +339,15 @@ fn norm_path(p: &str) -> String {
 pub fn case(t: &mut Tape, scratch: &Scratch) -> CaseResult {
     let c = gen_case(t);
     let (exp, meaning) = expect(&c);
-    let dir = scratch.0.join("cfg");
+    let man = manifest(&c);
+    // the project directory changes from case to case (4 directories in turn), and half of the cases reach it through
+    // the CARGO_MANIFEST_DIR environment variable (as the macro and `TranslationsInfos::parse()` do) instead of an
+    // explicit path: a later project must not be answered from an earlier one
+    let hm = vcommon::ctx::hash_str(&man);
+    let dir = scratch.0.join(format!("cfg{}", hm % 4));
+    let via_env = (hm / 4) % 2 == 0;
     let _ = std::fs::remove_dir_all(&dir);
     std::fs::create_dir_all(&dir).map_err(|e| fail("harness-io", json!({"e": e.to_string()})))?;
-    let man = manifest(&c);
     std::fs::write(dir.join("Cargo.toml"), &man).map_err(|e| fail("harness-io", json!({"e": e.to_string()})))?;
     let mut missing: Option<String> = None;
     let mut needed: Vec<String> = vec![];
@@ -397,7 +402,14 @@ pub fn case(t: &mut Tape, scratch: &Scratch) -> CaseResult {
         }
     }
     let d2 = dir.clone();
-    let r = std::panic::catch_unwind(move || leptos_i18n_parser::parse_locales::parse_locales_raw(false, Some(d2)));
+    let r = std::panic::catch_unwind(move || {
+        if via_env {
+            std::env::set_var("CARGO_MANIFEST_DIR", &d2);
+            leptos_i18n_parser::parse_locales::parse_locales_raw(false, None)
+        } else {
+            leptos_i18n_parser::parse_locales::parse_locales_raw(false, Some(d2))
+        }
+    });
     let detail = |extra: serde_json::Value| json!({"manifest": man, "case": format!("{:?}", c), "extra": extra});
     let r = match r {
         Err(p) => return Err(fail("panic", detail(json!({"panic": eval::panic_message(p), "at": eval::last_panic_loc()})))),
@@ -533,7 +545,7 @@ pub fn run(mut ctx: Ctx) -> ! {
          optional fields present/absent, unknown fields, comments, literal/basic strings, multi-line arrays, inherits as inline \
          table or dotted keys) + random trailing sections; locale lists with/without/duplicating the default, duplicate \
          namespaces, inherits naming unknown locales or the default, missing required fields; directory layouts with decoy files \
-         and one needed file possibly missing. observation: parse_locales_raw (ConfigFile fields, tracked file list, error). \
+         and one needed file possibly missing. observation: parse_locales_raw (ConfigFile fields, tracked file list, error), given the project directory explicitly or through CARGO_MANIFEST_DIR, four directories used in turn in one process. \
          oracle: model answering MustOk{default first, rest a permutation, dir, namespaces, inherits, exactly the needed files \
          read} / MustErr(non-empty message, naming a missing file) / Either. non-trivial = configuration exercising >=2 of \
          {default unlisted or not first, inherits, namespaces, custom dir, surrounding sections}; distinct = hash of the case",
